@@ -312,6 +312,9 @@ class Worker(metaclass=SupportClassPropertiesMeta):
             > nor that they won't. This might change in the future, so that the behaviour is consistent at least in the case of ``user_state``,
             > if proven beneficial.
         '''
+        if self._started and not self.is_child:
+            # for some workers the final state arrives together with the final result and is only read on demand
+            self._get_result()
         return self._user_state
 
     @user_state.setter
